@@ -706,6 +706,54 @@ def must_call(ctx, res, fn, callee_attr, rule, wording, module=None):
     return ok
 
 
+def r155_vertex_merging(ctx, res):
+    """R15.5: 'a polygon with fewer than three distinct vertices' is rejected because repeated vertices are merged before the
+    first three stored vertices define the plane (the shortened list then fails).  The value stored into self.points must
+    pass through a duplicate-merging construct."""
+    from ..astutil import expand_locals
+    fi = ctx.repo.fn("ConvexPolygon.__init__")
+    sn = fi.self_name
+    stores = [s_ for s_ in walk_local(fi.node) if isinstance(s_, ast.Assign) and any(txt(t) == "%s.points" % sn for t in s_.targets)]
+    if not stores:
+        raise AnalysisError("%s: ConvexPolygon.__init__ does not store self.points" % fi.where())
+    st = min(stores, key=lambda s_: s_.lineno)
+    v = expand_locals(fi.node, st.value, fi.params)
+
+    def merges(e) -> Optional[str]:
+        for x in ast.walk(e):
+            if isinstance(x, ast.Call) and isinstance(x.func, ast.Name) and x.func.id in ("set", "frozenset") and x.args:
+                return "`%s(...)`" % x.func.id
+            if isinstance(x, ast.Call) and txt(x.func) in ("dict.fromkeys", "OrderedDict.fromkeys", "collections.OrderedDict.fromkeys"):
+                return "`%s(...)`" % txt(x.func)
+            if isinstance(x, (ast.SetComp, ast.DictComp)):
+                return "a set / dict comprehension"
+        return None
+
+    how = merges(v)
+    if how is None:
+        # a list filled in a loop behind a membership filter:  if p not in out: out.append(p)
+        for nm in {x.id for x in ast.walk(v) if isinstance(x, ast.Name)}:
+            for n_ in walk_local(fi.node):
+                if isinstance(n_, ast.If) and any(isinstance(c, ast.Compare) and len(c.ops) == 1 and isinstance(c.ops[0], ast.NotIn)
+                                                  and txt(c.comparators[0]) == nm for c in ast.walk(n_.test)) \
+                        and any(isinstance(c, ast.Call) and txt(c.func) in ("%s.append" % nm, "%s.add" % nm) for b in n_.body for c in ast.walk(b)):
+                    how = "a membership filter on `%s`" % nm
+    if how is None:
+        calls = [c for c in ast.walk(v) if isinstance(c, ast.Call) and not (isinstance(c.func, ast.Name) and fi.resolve(c.func.id) is None)
+                 and txt(c.func) not in ("copy.deepcopy", "copy.copy")]
+        unknown = [c for c in calls if not (isinstance(c.func, ast.Attribute) and c.func.attr in ("index", "copy"))]
+        if unknown:
+            raise AnalysisError("%s: whether `%s` merges repeated vertices is not decided" % (fi.where(st), txt(unknown[0])[:50]))
+    res.ob("R15.5", fi.where(st), "ConvexPolygon.__init__: repeated vertices are merged", how is not None,
+           "the stored vertex list goes through %s" % how if how else "`%s` keeps every repetition" % txt(st)[:60])
+    if how is None:
+        res.violation("R15.5", fi, st,
+                      "a polygon with fewer than three distinct vertices must be rejected -- ConvexPolygon.__init__ stores `%s` without "
+                      "merging repeated vertices: a vertex list whose points coincide within the tolerance keeps its length, passes the "
+                      "count test, and the near-zero (but non-zero) normal of the first three builds a plane, so a polygon with two "
+                      "distinct vertices is returned" % txt(st.value)[:60], construct="ConvexPolygon.__init__ vertex merging")
+
+
 EXPLICIT = [
     GuardOb("Line.__init__", "zero direction", "a zero-length Line must be rejected",
             inputs_any={"b", "self.dv"}, eps=True),
@@ -1009,6 +1057,7 @@ def run(ctx, res):
     r152_unsupported(ctx, res)
     r153_raise_not_return(ctx, res)
     r154_definite_assignment(ctx, res)
+    r155_vertex_merging(ctx, res)
     # informational: comparisons of a bound method with a constant can never fire
     seen = set()
     for q, ln, text in ctx.types.anomalies:
